@@ -203,6 +203,7 @@ func rewritePkg(fset *token.FileSet, imp types.Importer, root string, p *listPkg
 		Types: map[ast.Expr]types.TypeAndValue{},
 		Uses:  map[*ast.Ident]types.Object{},
 		Defs:  map[*ast.Ident]types.Object{},
+		Selections: map[*ast.SelectorExpr]*types.Selection{},
 	}
 	var terrs []string
 	conf := types.Config{Importer: imp, FakeImportC: true, Error: func(err error) { terrs = append(terrs, err.Error()) }}
@@ -304,10 +305,54 @@ func (rw *fileRewriter) siteLit(pos token.Pos) *ast.BasicLit {
 // at the go statement, as the language requires.
 func (rw *fileRewriter) rewriteGoStmts() {
 	counter := 0
+	// lockCall recognises mu.Lock() / RLock() / Unlock() / RUnlock() on sync.Mutex
+	// and sync.RWMutex (also promoted through embedding) and returns the
+	// cooperative replacement call.
+	lockCall := func(call *ast.CallExpr) *ast.CallExpr {
+		sel, ok := call.Fun.(*ast.SelectorExpr)
+		if !ok || len(call.Args) != 0 {
+			return nil
+		}
+		selection := rw.info.Selections[sel]
+		if selection == nil {
+			return nil
+		}
+		fn, ok := selection.Obj().(*types.Func)
+		if !ok {
+			return nil
+		}
+		repl := map[string]string{
+			"(*sync.Mutex).Lock": "Lock", "(*sync.Mutex).Unlock": "Unlock",
+			"(*sync.RWMutex).Lock": "Lock", "(*sync.RWMutex).Unlock": "Unlock",
+			"(*sync.RWMutex).RLock": "RLock", "(*sync.RWMutex).RUnlock": "RUnlock",
+		}[fn.FullName()]
+		if repl == "" {
+			return nil
+		}
+		var recv ast.Expr = sel.X
+		if _, isPtr := rw.info.TypeOf(sel.X).Underlying().(*types.Pointer); !isPtr {
+			recv = &ast.UnaryExpr{Op: token.AND, X: sel.X}
+		}
+		rw.seam("lock", call.Pos(), fn.FullName())
+		args := []ast.Expr{recv}
+		if repl == "Lock" || repl == "RLock" {
+			args = []ast.Expr{rw.siteLit(call.Pos()), recv}
+		}
+		return &ast.CallExpr{Fun: rw.simSel(repl), Args: args}
+	}
 	fix := func(list []ast.Stmt) []ast.Stmt {
 		has := false
 		for _, st := range list {
-			if _, ok := st.(*ast.GoStmt); ok {
+			switch x := st.(type) {
+			case *ast.GoStmt, *ast.SendStmt:
+				has = true
+			case *ast.ExprStmt:
+				if c, ok := x.X.(*ast.CallExpr); ok {
+					if _, ok := c.Fun.(*ast.SelectorExpr); ok {
+						has = true
+					}
+				}
+			case *ast.DeferStmt:
 				has = true
 			}
 		}
@@ -316,6 +361,27 @@ func (rw *fileRewriter) rewriteGoStmts() {
 		}
 		var out []ast.Stmt
 		for _, st := range list {
+			switch x := st.(type) {
+			case *ast.SendStmt:
+				// a scheduling point in front of every channel send
+				rw.seam("send", x.Pos(), "channel send")
+				out = append(out, &ast.ExprStmt{X: &ast.CallExpr{Fun: rw.simSel("Yield"), Args: []ast.Expr{rw.siteLit(x.Pos())}}}, st)
+				continue
+			case *ast.ExprStmt:
+				if c, ok := x.X.(*ast.CallExpr); ok {
+					if r := lockCall(c); r != nil {
+						x.X = r
+					}
+				}
+				out = append(out, st)
+				continue
+			case *ast.DeferStmt:
+				if r := lockCall(x.Call); r != nil {
+					x.Call = r
+				}
+				out = append(out, st)
+				continue
+			}
 			g, ok := st.(*ast.GoStmt)
 			if !ok {
 				out = append(out, st)
